@@ -134,6 +134,14 @@ def streams(tier, rng):
         yield {'name': 'fuzz-found', 'cases': found, 'model': False, 'note': note, 'project': project, 'nontrivial': lambda c, o: c}
     # the formatting helpers a handler may call on what it decoded (exact-size buffers; judged by the sanitizer only)
     from props import C15
+    import struct as _st
     for st in C15.streams(tier, rng):
         if st['name'] in ('fill-default', 'copy-text'):
             yield {'name': 'helpers-' + st['name'], 'cases': st['cases'][::2], 'model': False, 'nontrivial': lambda c, o: c}
+        elif st['name'] == 'fill-dtostre-build':
+            nines = []
+            for x in (999999999999999.9, 9.999999999999998, 99999.96, 0.99999999999999999, 9.9999999e-10, 99999999999999999999.0, -9.999999999999998, 0.0999999999999999999, 9.5, 99.5, 0.95):
+                b = _st.unpack('<Q', _st.pack('<d', x))[0]
+                fb = _st.unpack('<I', _st.pack('<f', x))[0]
+                nines += ['D2S %x 64' % b, 'F2S %x 64' % fb] + ['DTOSTRE %x %d 40 0' % (b, P) for P in (1, 2, 6, 15)]
+            yield {'name': 'helpers-dtostre', 'flavor': 'dtostre', 'cases': st['cases'][::2] + nines, 'model': False, 'nontrivial': lambda c, o: c}
